@@ -44,8 +44,9 @@ var globals = native.Declarations{
 func varsFor(v string) map[string]any {
 	p := PS{A: v, B: 7}
 	var e error = errors.New(v)
+	var a any = v
 	return map[string]any{
-		"s": v, "ns": NS(v), "st": Str{v}, "er": e, "any": any(v),
+		"s": v, "ns": NS(v), "st": Str{v}, "er": &e, "any": &a,
 		"n": 42, "f": 1.5, "b": true,
 		"ls": []string{v, "k"}, "arr": [2]string{v, v}, "ms": map[string]string{v: v},
 		"ps": p, "pp": &p, "bs": []byte(v), "h": native.HTML("<i>t</i>"),
